@@ -262,8 +262,135 @@ def _lock_facts(src):
         who = sorted(set(c[0] for c in callers(fn)))
         if not set(who) <= set(want_writers) | {"get"}:
             raise TranslateError("lock scopes: %s is called from %r" % (fn, who))
-    return {"cache": cache_ok, "get": get_ok, "fast": fast_ok, "writers": writers_ok, "store": store_ok}
+    # ---- (4) every READ of _kv/_expiry outside the constructor-only functions happens while _mutex is held (shared or exclusive): by a
+    # guard of the function itself, or (function without a guard on _mutex) because every call site of it is
+    def under_any(name, body, pos, seen):
+        locks = locks_of(body)
+        if held(locks, pos, "_mutex", "SX"):
+            return True
+        if any(l[2] == "_mutex" for l in locks):
+            return False
+        if name in seen:
+            return False
+        cs = [c for c in callers(name) if c[0] != name]
+        if not cs:
+            return False
+        return all(under_any(c[0], c[2], c[3], seen | {name}) for c in cs)
 
+    readers_ok = True
+    reader_fns = []
+    _rd = re.compile(r"\b(?:_kv|_expiry)\b(?!\s*=(?!=))")
+    for name, header, body in ms:
+        if name in ctor_only or name.startswith("~"):
+            continue
+        sites = [m.start() for m in _rd.finditer(body)]
+        if sites:
+            reader_fns.append(name)
+        for p in sites:
+            readers_ok &= under_any(name, body, p, frozenset())
+    for need in ("exists", "ttl", "size", "get", "getBatch", "keys"):
+        if need not in reader_fns:
+            raise TranslateError("lock scopes: %s() does not mention _kv/_expiry any more (reader functions found: %r)" % (need, sorted(set(reader_fns))))
+    return {"cache": cache_ok, "get": get_ok, "fast": fast_ok, "writers": writers_ok, "store": store_ok, "readers": readers_ok}
+
+
+
+# ------------------------------------------------------------------ JsonFileStore: constructor limits and the lock scope of the save
+def _json_ctor_limits(repo, jsrc):
+    """The ParseLimits the constructor parses its own file with: `Json::parseOrThrow(content, ownFileLimits())` with every field of
+    ownFileLimits() assigned explicitly, or `file >> _store` (operator>>: the ParseLimits defaults of json.hpp)."""
+    psrc = read(repo, "include/iora/parsers/json.hpp")
+    m = re.search(r"struct\s+ParseLimits\s*\{", psrc)
+    if not m:
+        raise TranslateError("json.hpp: struct ParseLimits not found")
+    body = psrc[m.end():cxxscan.match_brace(psrc, m.end() - 1)]
+    defaults = {}
+    for mm in re.finditer(r"std::size_t\s+(\w+)\s*\{\s*([\d']+)\s*\}\s*;", body):
+        defaults[mm.group(1)] = int(mm.group(2).replace("'", ""))
+    fields = ["arrayItemsMax", "membersMax", "depthMax", "stringLengthMax"]
+    if sorted(defaults) != sorted(fields):
+        raise TranslateError("json.hpp: ParseLimits fields %r, expected %r" % (sorted(defaults), sorted(fields)))
+    mc = re.search(r"explicit\s+JsonFileStore\s*\([^)]*\)[^{]*\{", jsrc)
+    if not mc:
+        raise TranslateError("JsonFileStore: constructor not found")
+    ctor = jsrc[mc.end():cxxscan.match_brace(jsrc, mc.end() - 1)]
+    reads = re.findall(r"file\s*>>\s*_store\s*;|_store\s*=\s*parsers::Json::parseOrThrow\(\s*content\s*,\s*ownFileLimits\(\)\s*\)\s*;|_store\s*=\s*parsers::Json::parse\w*\([^;]*;", ctor)
+    if len(reads) != 1:
+        raise TranslateError("JsonFileStore constructor: expected exactly one read of the file into _store, found %d" % len(reads))
+    if not re.search(r"catch\s*\(const std::exception &\w+\)\s*\{[^}]*_store\s*=\s*parsers::Json::object\(\)\s*;", ctor):
+        raise TranslateError("JsonFileStore constructor: the parse-error fall-back `_store = parsers::Json::object()` is not there (the model's openStore has it)")
+    rd = re.sub(r"\s+", "", reads[0])
+    if rd == "file>>_store;":
+        return defaults
+    if rd != "_store=parsers::Json::parseOrThrow(content,ownFileLimits());":
+        raise TranslateError("JsonFileStore constructor: unrecognised read of the file %r" % reads[0])
+    if not re.search(r"const std::string content\(\(std::istreambuf_iterator<char>\(file\)\),\s*std::istreambuf_iterator<char>\(\)\);", ctor):
+        raise TranslateError("JsonFileStore constructor: `content` is not the whole file")
+    ofl = _method(jsrc, r"static\s+parsers::ParseLimits\s+ownFileLimits\s*\(\s*\)", "ownFileLimits")
+    out = dict(defaults)
+    if not re.search(r"parsers::ParseLimits\s+limits\s*;", ofl) or not re.search(r"return\s+limits\s*;\s*$", ofl.strip()):
+        raise TranslateError("ownFileLimits: unexpected shape")
+    assigned = re.findall(r"limits\.(\w+)\s*=\s*([^;]+);", ofl)
+    for name, expr in assigned:
+        if name not in out:
+            raise TranslateError("ownFileLimits: unknown field %s" % name)
+        e = re.sub(r"\s+", "", expr)
+        if e == "std::numeric_limits<std::size_t>::max()":
+            out[name] = 2 ** 64 - 1
+        elif re.fullmatch(r"[\d']+", e):
+            out[name] = int(e.replace("'", ""))
+        else:
+            raise TranslateError("ownFileLimits: unsupported value %r for %s" % (expr, name))
+    return out
+
+
+def _json_lock_fact(jsrc, stf, via_tmp):
+    """True iff (a) saveToFile itself opens <file>.tmp and renames it (the file operations are not handed to a helper), (b) every call of
+    saveToFile() and the `_dirty = false` that follows it lie inside ONE `std::lock_guard<std::mutex> x(_mutex);` scope of the caller, with no
+    manual unlock, (c) set / remove / flush / tryFlushIfDirty take that guard as their first statement."""
+    ms = _class_methods(jsrc, "JsonFileStore")
+    guard = re.compile(r"std::(?:lock_guard|unique_lock|scoped_lock)\s*<\s*std::mutex\s*>\s+(\w+)\s*\(\s*_mutex\s*\)\s*;")
+    if re.search(r"\b_mutex\s*\.\s*(?:lock|unlock|try_lock)\s*\(", jsrc):
+        raise TranslateError("JsonFileStore: _mutex locked without an RAII guard")
+    ok = via_tmp
+    # (a) all file operations on _filename / tmpName happen inside saveToFile
+    for name, header, body in ms:
+        if name in ("saveToFile", "JsonFileStore"):
+            continue
+        if re.search(r"std::ofstream|std::rename\s*\(|std::filesystem::rename\s*\(|\bfopen\s*\(|std::remove\s*\(", body):
+            ok = False                                     # a helper writes the file: the lock scope of saveToFile's callers says nothing about it
+    callers = []
+    for name, header, body in ms:
+        for m in re.finditer(r"(?<![\w.>:])saveToFile\s*\(\s*\)\s*;", body):
+            callers.append((name, body, m.start(), m.end()))
+    if sorted(c[0] for c in callers) != ["flush", "tryFlushIfDirty"]:
+        raise TranslateError("JsonFileStore: saveToFile() is called from %r, expected flush and tryFlushIfDirty" % sorted(c[0] for c in callers))
+    for name, body, a, b in callers:
+        gs = [(g.end(), _scope_end(body, g.end()), g.group(1)) for g in guard.finditer(body)]
+        live = [g for g in gs if g[0] <= a < g[1]]
+        if not live:
+            ok = False
+            continue
+        g0 = live[0]
+        if re.search(r"\b%s\s*\.\s*(?:unlock|release)\s*\(" % re.escape(g0[2]), body):
+            ok = False
+        md = re.match(r"\s*_dirty\s*=\s*false\s*;", body[b:])
+        if not md or not (b + md.end() <= g0[1]):
+            ok = False                                     # `_dirty = false` is not the statement right after saveToFile(), inside the same guard
+        if len(re.findall(r"\b_dirty\s*=\s*false\b", body)) != 1:
+            ok = False
+    # (c) the mutators and the two flushers take the guard first
+    for fn in ("set", "remove", "flush", "tryFlushIfDirty"):
+        bodies = [b for n, h, b in ms if n == fn]
+        if not bodies:
+            raise TranslateError("JsonFileStore: %s() not found" % fn)
+        for b in bodies:
+            if not guard.match(b.strip()):
+                ok = False
+    dtor = [b for n, h, b in ms if n == "~JsonFileStore"]
+    if len(dtor) != 1 or not re.search(r"unregisterStore\(\);\s*flush\(\);", dtor[0]):
+        raise TranslateError("JsonFileStore: the destructor is not `unregisterStore(); flush();`")
+    return ok
 
 
 def gen(repo):
@@ -325,7 +452,43 @@ def gen(repo):
     # ---- reader: load()
     ld = _method(src, r"void\s+load\s*\(\s*\)", "load")
     versions = sorted(int(x) for x in re.findall(r"version\s*!=\s*(\d+)", _one(r"\(version\s*!=[^)]*\)", ld, "accepted snapshot versions")))
-    count_max = ceval(_one(r"if\s*\(\s*count\s*>\s*([^)]+)\)", ld, "snapshot count bound"), env, "snapshot count bound")
+    # snapshot entry count: the repaired shape bounds it by what the rest of the file can hold at kMinSnapshotEntryBytes per entry
+    # (`here` = position right after the count field, `fileEnd` = end of the file); the old shape is a constant ceiling
+    cnt_sites = re.findall(r"\bcount\s*>\s*([^;{]+?)\)\s*\{\s*throw", ld)
+    if len(cnt_sites) != 1:
+        raise TranslateError("load: expected exactly one `count > ...` refusal of the snapshot entry count, found %d" % len(cnt_sites))
+    cexpr = re.sub(r"\s+", "", cnt_sites[0])
+    count_const = None
+    count_from_size = False
+    min_entry = 0
+    mfs = re.fullmatch(r"static_cast<std::uint64_t>\(fileEnd-here\)/(\w+)", cexpr)
+    if mfs:
+        shape = re.search(r"snapshot\.read\(reinterpret_cast<char \*>\(&count\), sizeof\(count\)\)\)\s*\{[^}]*\}\s*(?://[^\n]*\n\s*)*\{\s*"
+                          r"const std::streamoff here = static_cast<std::streamoff>\(snapshot\.tellg\(\)\);\s*"
+                          r"snapshot\.seekg\(0, std::ios::end\);\s*"
+                          r"const std::streamoff fileEnd = static_cast<std::streamoff>\(snapshot\.tellg\(\)\);\s*"
+                          r"snapshot\.seekg\(here, std::ios::beg\);\s*"
+                          r"if \(here < 0 \|\| fileEnd < here \|\|", ld)
+        if not shape:
+            raise TranslateError("load: the file-size bound of the snapshot count does not have the recognised shape (here = tellg right after the count, fileEnd = tellg at the end, seek back)")
+        if mfs.group(1) not in env:
+            raise TranslateError("load: snapshot count divisor %s is not a known constant" % mfs.group(1))
+        min_entry = env[mfs.group(1)]
+        count_from_size = True
+    else:
+        count_const = ceval(cnt_sites[0], env, "snapshot count bound")
+    # compactLocked: the count field and the refusal of a count that does not fit it, before the temp file is opened
+    cl = _method(src, r"void\s+compactLocked\s*\(\s*\)", "compactLocked")
+    mcw = re.search(r"(u?int\d+_t)\s+count\s*=\s*static_cast<\1>\(survivors\.size\(\)\)\s*;", cl)
+    if not mcw or mcw.group(1) != "uint32_t":
+        raise TranslateError("compactLocked: the snapshot count is not written as `uint32_t count = static_cast<uint32_t>(survivors.size())`")
+    if not re.search(r"out\.write\(reinterpret_cast<const char \*>\(&count\), sizeof\(count\)\)", cl):
+        raise TranslateError("compactLocked: count is not written with sizeof(count)")
+    mref = re.search(r"if\s*\(\s*(?:survivors|_kv)\.size\(\)\s*>\s*std::numeric_limits<uint32_t>::max\(\)\s*\)\s*\{\s*throw\b", cl)
+    mopen = re.search(r"std::ofstream\s+out\(_tempPath", cl)
+    if not mopen:
+        raise TranslateError("compactLocked: open of the temp file not found")
+    compact_refuses = bool(mref and mref.start() < mopen.start())
     # every comparison in which keyLen / valLen is the left operand, in source order: exactly the two key sites (snapshot, log)
     # and the three value sites (snapshot, 'S' arm, 'E' arm), each with the operator the model uses
     def sites(var):
@@ -408,10 +571,15 @@ def gen(repo):
     t += "namespace Iora.Gen.Kv\n"
     t += "/-- API limits (`MAX_KEY_LENGTH`, `MAX_VALUE_LENGTH`, checked by `validateKeyValue`) -/\n"
     t += "def maxKeyLength : Nat := %d\ndef maxValueLength : Nat := %d\n" % (env["MAX_KEY_LENGTH"], env["MAX_VALUE_LENGTH"])
-    t += "/-- `KVStoreConfig` defaults -/\n"
-    t += "def magicDefault : Nat := %d\ndef maxLogSizeDefault : Nat := %d\ndef maxCacheSizeDefault : Nat := %d\ndef backgroundCompactionDefault : Bool := %s\n" % (magic, max_log, max_cache, bg)
+    t += "/-- `KVStoreConfig::magicNumber` default (the other defaults are not part of the model: every theorem is for all maxCache/maxLog/inline) -/\n"
+    t += "def magicDefault : Nat := %d\n" % magic
     t += "/-- snapshot version written by `writeHeader`, versions accepted by `load`, sanity bound on the entry count -/\n"
-    t += "def snapVersionWritten : Nat := %d\ndef snapVersionsAccepted : List Nat := %s\ndef snapCountMax : Nat := %d\n" % (snap_ver, "[" + ", ".join(map(str, versions)) + "]", count_max)
+    t += "def snapVersionWritten : Nat := %d\ndef snapVersionsAccepted : List Nat := %s\n" % (snap_ver, "[" + ", ".join(map(str, versions)) + "]")
+    t += ("/-- snapshot entry count: capacity of the `uint32_t count` field `compactLocked` writes; `load` refuses `count > (fileEnd - here) / kMinSnapshotEntryBytes`\n"
+          "(`snapCountBoundFromFileSize`, divisor `snapMinEntryBytes`) instead of a constant ceiling (`snapCountConstBound`); `compactLocked` throws before opening the\n"
+          "temp file when `survivors.size()` does not fit the field -/\n")
+    t += "def snapCountFieldMax : Nat := %d\ndef snapMinEntryBytes : Nat := %d\ndef snapCountBoundFromFileSize : Bool := %s\ndef snapCountConstBound : Option Nat := %s\ndef compactRefusesCountOverflow : Bool := %s\n" % (
+        2 ** 32 - 1, min_entry, str(count_from_size).lower(), "none" if count_const is None else "some %d" % count_const, str(compact_refuses).lower())
     t += "/-- op letters: written by the API, accepted by `load`; which carry an expiry / a value (`writeLogEntry`) -/\n"
     t += "def opsWritten : List Nat := %s\ndef opsAccepted : List Nat := %s\ndef opsWithExpiry : List Nat := %s\ndef opsWithValue : List Nat := %s\n" % tuple(
         "[" + ", ".join(str(ord(c)) for c in xs) + "]" for xs in (letters, rd_ops, has_exp, has_val))
@@ -446,7 +614,26 @@ def gen(repo):
     t += "def getRefillsCacheUnderStoreLock : Bool := %s\ndef getFastPathTakesCacheLockOnly : Bool := %s\ndef writersTouchCacheUnderStoreLock : Bool := %s\n" % (
         str(lf["get"]).lower(), str(lf["fast"]).lower(), str(lf["writers"]).lower())
     t += "def storeWritesUnderStoreLock : Bool := %s\ndef cacheAccessUnderCacheLock : Bool := %s\n" % (str(lf["store"]).lower(), str(lf["cache"]).lower())
+    t += "/-- every read of `_kv` / `_expiry` outside the constructor-only functions holds `_mutex` (shared or exclusive; own guard or every call site) -/\n"
+    t += "def readersHoldStoreLock : Bool := %s\n" % str(lf["readers"]).lower()
     t += "/-- `JsonFileStore::saveToFile`: writes a sibling temp file and renames it over the target (true) / truncates the live file in place (false) -/\n"
     t += "def jsonSaveViaTempRename : Bool := %s\n" % str(via_tmp).lower()
+    jl = _json_ctor_limits(repo, jsrc)
+    t += "/-- the `ParseLimits` `JsonFileStore`'s constructor reads its own file with (`ownFileLimits()`; the `ParseLimits` defaults when it uses `operator>>`) -/\n"
+    t += "def jsonCtorDepthMax : Nat := %d\ndef jsonCtorArrayItemsMax : Nat := %d\ndef jsonCtorMembersMax : Nat := %d\ndef jsonCtorStringLengthMax : Nat := %d\n" % (
+        jl["depthMax"], jl["arrayItemsMax"], jl["membersMax"], jl["stringLengthMax"])
+    dumps = re.findall(r"_store\.dump\(\s*(-?\d+)\s*\)", stf)
+    if len(dumps) != 1:
+        raise TranslateError("saveToFile: expected exactly one `_store.dump(<n>)`, found %d" % len(dumps))
+    t += "/-- indentation argument of the `dump` call in `saveToFile` -/\ndef jsonSaveDumpIndent : Int := %s\n" % dumps[0]
+    t += ("/-- every call of `saveToFile()` (from `flush()`, `tryFlushIfDirty()`; the destructor goes through `flush()`) and the `_dirty = false` after it lie inside ONE\n"
+          "`std::lock_guard<std::mutex>` on `_mutex`, `saveToFile` itself opens `<file>.tmp` and renames it (no helper does it later), and `set`/`remove` change `_store` under `_mutex` -/\n")
+    t += "def jsonSaveCallersHoldMutex : Bool := %s\n" % str(_json_lock_fact(jsrc, stf, via_tmp)).lower()
+    ftf = _method(jsrc, r"static\s+void\s+flushThreadFunc\s*\(\s*\)", "flushThreadFunc")
+    flusher_ok = bool(re.search(r"std::unique_lock<std::mutex>\s+lock\(registryMutex\(\),\s*std::try_to_lock\);\s*if\s*\(!lock\.owns_lock\(\)\)\s*\{\s*continue;\s*\}\s*for\s*\(auto \*store : registry\(\)\)", ftf)
+                      and not re.search(r"lock_guard<std::mutex>\s+\w+\(registryMutex\(\)\)", ftf) and "storesToFlush" not in ftf)
+    t += ("/-- `flushThreadFunc` flushes the registered stores while it HOLDS `registryMutex` (no store is destroyed while it is being flushed: the destructor waits in\n"
+          "`unregisterStore()`), and takes that mutex with `try_to_lock` only (it never waits for it: `unregisterStore()` joins the thread while holding it) -/\n")
+    t += "def jsonFlusherHoldsRegistryNeverWaits : Bool := %s\n" % str(flusher_ok).lower()
     t += "end Iora.Gen.Kv\n"
     return "IoraModel/Gen/Kv.lean", t
